@@ -271,7 +271,7 @@ func runCheck(o checkOpts) int {
 		}
 		funcsUnder = append(funcsUnder, res.Name)
 		for _, ob := range res.Obligations {
-			if prop == "all" || contains(ob.Props, prop) || supportKinds[ob.Kind] {
+			if prop == "all" || contains(ob.Props, prop) || (supportKinds[ob.Kind] && !ob.Explicit) {
 				selected = append(selected, ob)
 			}
 		}
